@@ -42,6 +42,8 @@ def main():
             src = os.path.join(os.environ.get("VERIF_SRC", "/verif"), d)
             if os.path.isdir(src):
                 sh(f"cp -a {src} {os.path.join(verif, d)}")
+        # what setup.sh leaves behind on the unchanged tree: the fallback op files of the quick tier
+        sh(f"mkdir -p {verif}/work && cp {os.environ.get('VERIF_SRC', '/verif')}/work/*.ops.good {verif}/work/ 2>/dev/null")
         sh(f"sed -i 's|/repo/|{repo}/|g' {verif}/harness/Cargo.toml")
         sh(f"sed -i 's|\"/repo/Cargo.lock\"|\"{repo}/Cargo.lock\"|' {verif}/tools/checklib.py")
         env = dict(os.environ, VERIF_REPO=repo)
